@@ -170,8 +170,20 @@ var c11Ops = []string{"print", "dump", "dumpT", "dumpP", "dumpTP", "traverse", "
 var siteClassNames = []string{"cli", "pool", "lexer-new", "lexer-helpers", "newlines", "scanner", "php7-actions", "php5-actions", "parser-glue", "position-builder", "printer", "dumper", "resolver", "traverser", "version", "errors"}
 var knobs = []int{0, 0, 0, 0, 1, 2, 3, 5, 8, 64}
 
+// syncLib is set when library code of the tree under test uses sync or
+// sync/atomic: a quarter of the multi-task runs then use the site-biased
+// scheduler on class "sync" (preemption right after a release and right
+// before an acquisition, where check-then-act sequences break).
+var syncLib = false
+
 func (r *rng) schedule(est int64, tasks int) scn.Sched {
 	s := scn.Sched{Seed: r.next()}
+	if syncLib && tasks > 1 && r.chance(25) {
+		s.Mode = 3
+		s.SiteClass = "sync"
+		s.Mean = uint64([]int{1, 2, 3, 5, 10, 30}[r.n(6)])
+		return s
+	}
 	switch x := r.n(100); {
 	case tasks <= 1 || x < 15:
 		s.Mode = 0
@@ -280,6 +292,25 @@ func genC11CLI(c *corpus, r *rng, seed uint64) *scn.Scenario {
 	if v := cliVersions[r.n(len(cliVersions))]; v != "" {
 		s.CLIFlags = append(s.CLIFlags, "-phpver", v)
 	}
+	if r.chance(15) {
+		// fault: an I/O error strikes the program on one (rarely two) of its
+		// files; the other files' results must be unaffected
+		pb := false
+		for _, f := range s.CLIFlags {
+			pb = pb || f == "-pb"
+		}
+		if !pb && r.chance(60) {
+			s.CLIFlags = append([]string{"-pb"}, s.CLIFlags...)
+			pb = true
+		}
+		for k := 1 + r.n(5)/4; k > 0; k-- {
+			kind := "read-err"
+			if pb && r.chance(80) {
+				kind = []string{"write-err", "write-err", "write-torn"}[r.n(3)]
+			}
+			s.FSFaults = append(s.FSFaults, scn.FSFault{Path: s.Inputs[r.n(len(s.Inputs))].Path, Kind: kind})
+		}
+	}
 	s.Workers = r.pick([]int{1, 2, 2, 3, 4, 4, 8})
 	if deep {
 		s.Workers = r.pick([]int{2, 4, 8, 12, 16})
@@ -289,7 +320,7 @@ func genC11CLI(c *corpus, r *rng, seed uint64) *scn.Scenario {
 		est += int64(150 * len(in.Src))
 	}
 	s.Sched = r.schedule(est, s.Workers+2)
-	if s.Sched.Mode == 3 && r.chance(50) {
+	if s.Sched.Mode == 3 && s.Sched.SiteClass != "sync" && r.chance(50) {
 		s.Sched.SiteClass = "cli"
 	}
 	s.Knob = knobs[r.n(len(knobs))]
@@ -353,7 +384,12 @@ func genC11(c *corpus, seed uint64) *scn.Scenario {
 					mids = append(mids, k)
 				}
 			}
-			switch x := r.n(4); {
+			switch x := r.n(5); {
+			case x == 4:
+				// the same bytes under another version: version-dependent
+				// behaviour memoised per process / per content shows here
+				v.Version = versions[r.n(len(versions))]
+				v.Name += "[ver]"
 			case x == 0 && len(seps) > 0:
 				k := seps[r.n(len(seps))]
 				v.Src = append(v.Src[:k], v.Src[k+1:]...)
@@ -484,6 +520,9 @@ func genC13(c *corpus, seed uint64) *scn.Scenario {
 
 var denseBlocks = []int{1, 2, 3, 4, 5, 6, 7, 8, 9, 10, 12, 15, 16, 17, 31, 32, 33, 48, 63, 64}
 var bigBlocks = []int{100, 127, 128, 129, 255, 256, 1000, 1023, 1024, 1025, 2048, 4096}
+
+// hugeBlocks: around the 15/16/17-bit limits of a narrowed offset or index
+var hugeBlocks = []int{32767, 32768, 32769, 65535, 65536, 65537, 70001, 131072}
 var parseKnobs = []int{1, 2, 3, 4, 5, 7, 8, 13, 16, 64, 100, 255, 1000, 1023, 1025}
 
 func genC18(c *corpus, seed uint64) *scn.Scenario {
@@ -520,13 +559,27 @@ func genC18(c *corpus, seed uint64) *scn.Scenario {
 	if r.deep() {
 		nt, maxOps, maxTotal = r.pick([]int{2, 4, 6, 8}), 60, 80000
 	}
+	// 5% of the runs are "long": one task, one or two pools, a block size at a
+	// 15/16/17-bit limit with a request count beyond it, or a small block size
+	// with some 140,000 requests (growth policies, narrowed counters)
+	long := r.chance(5)
+	if long {
+		nt, maxOps, maxTotal = 1, 6, 300000
+	}
 	total := 0
 	for t := 0; t < nt; t++ {
 		var pt scn.PoolTask
 		np := 1 + r.n(3)
+		if long {
+			np = 1 + r.n(2)
+		}
 		for p := 0; p < np; p++ {
 			sp := scn.PoolSpec{Type: []string{"token", "position"}[r.n(2)]}
-			if r.chance(75) {
+			if long && r.chance(60) {
+				sp.Block = hugeBlocks[r.n(len(hugeBlocks))]
+			} else if long {
+				sp.Block = r.pick([]int{1, 2, 7, 64, 1000, 1024, 4096})
+			} else if r.chance(75) {
 				sp.Block = denseBlocks[r.n(len(denseBlocks))]
 			} else {
 				sp.Block = bigBlocks[r.n(len(bigBlocks))]
@@ -550,6 +603,12 @@ func genC18(c *corpus, seed uint64) *scn.Scenario {
 				default:
 					n = 1 + r.n(6*blk) // several boundaries
 				}
+				if long {
+					n = blk + 1 + r.n(blk/8+2)
+					if blk < 30000 {
+						n = 131000 + r.n(12000)
+					}
+				}
 				if n < 1 {
 					n = 1
 				}
@@ -560,16 +619,20 @@ func genC18(c *corpus, seed uint64) *scn.Scenario {
 				pt.Ops = append(pt.Ops, scn.PoolOp{Kind: "get", Pool: p, N: n})
 			case x < 85:
 				pt.Ops = append(pt.Ops, scn.PoolOp{Kind: "write", Pool: p, Arg: r.n(1 << 20)})
-			case x < 96:
+			case x < 95:
 				pt.Ops = append(pt.Ops, scn.PoolOp{Kind: "verify"})
-			default:
+			case x < 98:
 				pt.Ops = append(pt.Ops, scn.PoolOp{Kind: "gc"})
+			default:
+				// the pool itself is dropped (its objects are kept) and replaced by a
+				// new one of the same block size; a GC makes the old one collectable
+				pt.Ops = append(pt.Ops, scn.PoolOp{Kind: "renew", Pool: p}, scn.PoolOp{Kind: "gc"})
 			}
 		}
 		s.PoolTasks = append(s.PoolTasks, pt)
 	}
 	s.Sched = r.schedule(int64(total*12+100), nt)
-	if s.Sched.Mode == 3 {
+	if s.Sched.Mode == 3 && s.Sched.SiteClass != "sync" {
 		s.Sched.SiteClass = "pool"
 	}
 	s.Faults = scn.Faults{Seed: r.next()}
